@@ -28,8 +28,8 @@ _GEN_NOTE = ("Trusted: TLC; RDKit for token chemistry (atoms, bonds, attachment 
 _GEN_TECH = "TLA+ spec (Generate.tla) model-checked with TLC; implementation choice trees and random-stream traces validated against it by TLC (trace-tree validation); TLC-generated behaviours replayed into the implementation"
 for _p, _t in {
     "C04": "Design: TLC checks on GenerateMC (all choice sequences x target grid per instance) that every bond joins two unused, mutually compatible descriptors with their order (invariants IBonds, action property AttachSound). Conformance: the implementation's complete choice tree of ~70 bounded instances (all archetypes, negative instances whose transition lists point at incompatible descriptors) and recorded random streams of long instances are validated node by node against the spec; at every return the generated molecule must equal, atom by atom and bond by bond, the molecule the spec's residue tree denotes.",
-    "C05": "Design: TLC checks TreeInv / Connected / MassInv on every reachable state of GenerateMC. Conformance: every returned molecule of every explored schedule must equal the spec's assembly of whole token copies (element, charge, isotope, aromaticity, hydrogen count per atom, internal bonds, one bond per attachment), be sanitisable, and have mass = sum of residue masses; chemistry-rich token families (aromatic, charged, bracket, isotopic, polycyclic).",
-    "C06": "Design: TLC checks on GenerateMC WellPosed (no error reachable) for the instances the analysis calls well-posed, Closed / ElementOrder / NeighbourBonds / TerminalsRespected / EndGroupsAreLeaves in every done state, and the liveness property Termination under weak fairness without state constraint. Conformance: on every explored schedule the implementation returns exactly when the spec is done and raises exactly when the spec reaches error; the same done-state predicates are evaluated on the state that follows the implementation.",
+    "C05": "Design: TLC checks TreeInv / Connected / MassInv on every reachable state of GenerateMC. Conformance: every returned molecule of every explored schedule must equal the spec's assembly of whole token copies (element, charge, isotope, aromaticity, hydrogen count per atom, internal bonds, one bond per attachment), be sanitisable, and have mass = sum of residue masses; chemistry-rich token families (aromatic, charged, bracket, isotopic, polycyclic). Residue numbering (spec/Residues.tla, evaluated by TLC on the instance library and on two-component systems) is compared with the numbers on parsed tokens and generated atoms; differences are divergences in the evidence, not violations.",
+    "C06": "Design: TLC checks on GenerateMC WellPosed (no error reachable) for the instances the analysis calls well-posed, Closed / ElementOrder / NeighbourBonds / TerminalsRespected / EndGroupsAreLeaves in every done state, and the liveness property Termination under weak fairness without state constraint. Conformance: on every explored schedule the implementation returns exactly when the spec is done and raises exactly when the spec reaches error; the same done-state predicates are evaluated on the state that follows the implementation. Instances include a molecule with more than 26 tokens (the pinned tree could not generate it; repaired).",
     "C07": "Design: TLC checks StopRule and GrowOnlyBelowTarget on GenerateMC over a target grid bracketing every cumulative mass (+-1 mDa, equal, negative, zero). Conformance: targets forced through the library's own draw (zero-width gaussian) incl. exact-equality floats, negative and sub-unit targets, second blocks and end-group starts; the spec keeps the branch of the stop comparison that was not taken, so a divergence of the stop rule is told apart from a divergence of a selection law (an explanation by the branch not taken is dropped when the very next event refutes it). Refinement: TLC checks on every model instance that GenerateMC implements the abstract accumulation machine spec/FirstCrossing.tla (PROPERTY ImplementsFirstCrossing of spec/GenerateRefinesFC.tla), whose theorem - every finished accumulation stopped at the first partial sum exceeding its limit - is proved for all masses and targets by the TLA+ proof system (spec/proofs/FirstCrossingProofs.tla, re-proved in every run); the same inductive invariant is discharged symbolically by Apalache (spec/apalache/FirstCrossingApa.tla: holds initially, preserved by every step). The drawn target of a zero-width law must be the written value (the observation point is what the draw returns).",
     "C08": "Design: LawNormalised on every decision state. Conformance: at EVERY call of rng.choice on every explored path the candidate list and the probability vector (as exact fractions) must equal the spec's candidates and Law / TransLaw, options of probability zero are never taken, for all eight decision kinds x {forced, uniform, zero-next-to-nonzero, unequal} (census enforced as a vacuity guard); complete trees additionally have recorded probability mass exactly 1, so the exact distribution over molecules equals the spec's.",
 }.items():
@@ -103,7 +103,7 @@ CHECKS["C14"] = dict(
          "fraction / mean member mass (ShareLawHolds in Ensemble.tla, integer cross-multiplication). TLC evaluates this on every recorded component pick of "
          "systems with fixed-mass components (mass ratios 1-100, zero and non-integer percentages, 2-4 components). The unchanged code uses the declared fractions "
          "per molecule: recorded as a known finding that is matched ONLY by that exact law; any other vector (wrong component index, truncated percentages) is a "
-         "new violation. Thorough tier adds a frequency backstop on equal-mass systems.",
+         "new violation. Thorough tier adds a frequency backstop on equal-mass systems. Systems with a supplied mass and with trace components (parts per billion) are compared as the floats handed to the generator.",
     design_ref="DESIGN.md 4/C14",
     note="The convergence clause itself is statistical; the exact decision is made on the selection probabilities. Trusted: TLC, exact masses of fixed molecules from RDKit.",
     technique="TLA+ law (Ensemble.tla) evaluated by TLC on recorded pick events (trace validation)",
@@ -145,7 +145,7 @@ CHECKS["C16"] = dict(
          "TLC checks on every reachable state of the machine (RGCheck = GenerateMC + ReactionGraph) that the law at every partner / listed / capping / hand-over decision "
          "IS the out-edge set of the chosen descriptor's node (GraphAgrees), plus normalisation and compatibility of weight edges; the graph is exported and compared node by "
          "node and edge by edge (kind, target, probability) with Molecule.gen_reaction_graph() for the instance library and seeded archetypes. Three known causes of "
-         "discrepancy in the unchanged code are recorded as known findings and matched only when their cause is verified on the instance.",
+         "discrepancy in the unchanged code are recorded as known findings and matched only when their cause is verified on the instance. The graph of a mirrored molecule must not depend on an earlier graph call on the original; gen_mirror itself is specified in spec/Mirror.tla (evaluated by TLC on the instance library, compared element by element; divergences in the evidence).",
     design_ref="DESIGN.md 4/C16",
     note="Trusted: TLC; node identification through Molecule._elements. Edges of probability zero are ignored on both sides.",
     technique="TLA+ spec (graph as operator + invariant tying it to the generation machine) model-checked with TLC; exported graph compared with the implementation's",
@@ -188,7 +188,7 @@ CHECKS["C09"] = dict(
     text="Decided deterministically at the generator interface, not statistically: for every family x parameter set x molecule shape (one block, two blocks of the same family with "
          "different parameters, two blocks of different families, end-group start) the scripted generator answers the distribution's draw at each quantile of a grid; the block must "
          "stop in the bin F(M_{n-1}) <= u < F(M_n) of the DECLARED law with the documented parameter roles (Law.tla, record kind 'block'; CDF table at the cumulative unit masses). "
-         "Also: exactly one draw per stochastic object per generation, each block governed by its own draw, Poisson requested with the declared mean.",
+         "Also: exactly one draw per stochastic object per generation, each block governed by its own draw, Poisson requested with the declared mean. The scripted generator answers PER KIND of call (uniform() with u, standard_normal() with the matching z), so a law drawn through another family's sampler is seen; starting end groups of different mass are chosen in turn on one object.",
     design_ref="DESIGN.md 4/C09", note=_LAW_NOTE,
     technique="TLA+ law relations (Law.tla) checked by TLC on records of a scripted quantile sweep through the implementation",
 )
